@@ -47,6 +47,7 @@ type Engine struct {
 	compPkg    map[string]string    // component -> package path of the named type it belongs to
 	tables     map[*ssa.Global]*tableFact
 	addrTaken  map[*ssa.Function]bool
+	lockMemo   map[*ssa.Function]bool
 }
 
 func (e *Engine) qual(p *types.Package) string { return p.Name() }
